@@ -14,8 +14,10 @@ IN_PROCESS = ("naive", "priority", "priority-pool", "overbook", "tmpl")
 
 def scheduler(P: Program, key: str) -> Func:
     """The function registered for `key`, with its private single-purpose helpers inlined ("extract function" changes nothing)."""
-    from ..util import inline_helpers
-    return inline_helpers(P, P.scheduler(key))
+    from ..util import inline_helpers, dealias, desugar_extend
+    # ... dict comprehensions / extend(<comprehension>) written as the loops they abbreviate, object aliases such as
+    # `stats = pool_stats[pool_id]` written out
+    return dealias(desugar_extend(inline_helpers(P, P.scheduler(key))))
 
 
 def module_helpers(P: Program, f: Func, depth: int = 3) -> List[Func]:
